@@ -582,3 +582,109 @@ Example c03_instances_nonvacuous :
   = Some (Cuts.Ok ([(3, 0, (1 # 6)%Q, 2); (2, 1, (1 # 3)%Q, 2); (6, 4, (7 # 12)%Q, 3); (7, 5, 100%Q, 5)],
                    [(1, 0, 100%Q, 2)], [(0, 2, (7 # 12)%Q, 2); (3, 1, 100%Q, 3)])).
 Proof. cbv zeta. repeat split; vm_compute; reflexivity. Qed.
+
+(** * SOURCE LEVEL — the seed glue of utils/values.py and utils/format.py, regenerated on every run
+
+    [src_get_values], [src_stack_values] and [src_adjacency_values_core] are statements of the small imperative Python of
+    Model/PyImp.v produced by harness/translators/pyimp.py from the current text of get_values, stack_values and of the statement
+    of get_adjacency_values that computes [values] (callees inlined, their locals renamed).  [embVals] embeds a seed argument
+    (None / array or list / dict) into Python values.  For EVERY shape, seed argument and default value, running the text gives
+    exactly the vector (or the ValueError / IndexError) of the functional model used by all the theorems above, so the
+    addressing "row seed i at i, column seed j at n_row + j, the default value exactly elsewhere" is a statement about the
+    source text.  A Python list and a 1-D array are the same value in this semantics; the [which] post-processing and the call
+    of get_adjacency are pinned as reviewed text. *)
+From SKN Require Import Model.PyImp Gen.PyValues Proofs.PyCutsProofs Proofs.PyValuesProofs.
+From Coq Require Import String.
+Local Open Scope string_scope.
+
+Theorem source_get_values_is_model n rest v default (e0 : env) :
+  e0 "shape" = Some (VList (vnat n :: rest)) -> e0 "values" = Some (embVals v) ->
+  e0 "default_value" = Some (VNum default) ->
+  match Format.get_values n v default with
+  | Bfs.Ok l => exists e', exec src_get_values e0 = POk e' /\ e' "return" = Some (VList (map VNum l))
+  | Bfs.Err er => exec src_get_values e0 = PErr (convF er)
+  end.
+Proof. exact (src_get_values_is_model n rest v default e0). Qed.
+Print Assumptions source_get_values_is_model.
+
+Theorem source_stack_values_is_model n_row n_col vrow vcol default (e0 : env) :
+  e0 "shape" = Some (VList [vnat n_row; vnat n_col]) -> e0 "values_row" = Some (embVals vrow) ->
+  e0 "values_col" = Some (embVals vcol) -> e0 "default_value" = Some (VNum default) ->
+  match Format.stack_values n_row n_col vrow vcol default with
+  | Bfs.Ok l => exists e', exec src_stack_values e0 = POk e' /\ e' "return" = Some (VList (map VNum l))
+  | Bfs.Err er => exec src_stack_values e0 = PErr (convF er)
+  end.
+Proof. exact (src_stack_values_is_model n_row n_col vrow vcol default e0). Qed.
+Print Assumptions source_stack_values_is_model.
+
+Theorem source_stack_values_addresses n_row n_col vrow vcol default s (e0 : env) :
+  e0 "shape" = Some (VList [vnat n_row; vnat n_col]) -> e0 "values_row" = Some (embVals vrow) ->
+  e0 "values_col" = Some (embVals vcol) -> e0 "default_value" = Some (VNum default) ->
+  Format.stack_values n_row n_col vrow vcol default = Bfs.Ok s ->
+  exists e', exec src_stack_values e0 = POk e' /\ e' "return" = Some (VList (map VNum s)) /\
+    let both_none := match vrow, vcol with Format.VNone, Format.VNone => true | _, _ => false end in
+    List.length s = n_row + n_col /\
+    (forall i, i < n_row -> nthq s i = Format.seed_at vrow (if both_none then 1%Q else default) default i) /\
+    (forall j, j < n_col -> nthq s (n_row + j) = Format.seed_at vcol default default j).
+Proof. exact (src_stack_values_addresses n_row n_col vrow vcol default s e0). Qed.
+Print Assumptions source_stack_values_addresses.
+
+(** [values_model] is the vector of the model's get_adjacency_values given the decision [bipartite] of get_adjacency
+    ([model_adjacency_values_unfold]); the text computes it. *)
+Theorem source_adjacency_values_core_is_model bipartite n_row n_col values values_row values_col default (e0 : env) :
+  e0 "bipartite" = Some (VBool bipartite) -> e0 "input_matrix.shape" = Some (VList [vnat n_row; vnat n_col]) ->
+  e0 "values" = Some (embVals values) -> e0 "values_row" = Some (embVals values_row) ->
+  e0 "values_col" = Some (embVals values_col) -> e0 "default_value" = Some (VNum default) ->
+  match values_model bipartite n_row n_col values values_row values_col default with
+  | Bfs.Ok l => exists e', exec src_adjacency_values_core e0 = POk e' /\ e' "values" = Some (VList (map VNum l))
+  | Bfs.Err er => exec src_adjacency_values_core e0 = PErr (convF er)
+  end.
+Proof. exact (src_adjacency_values_core_is_model bipartite n_row n_col values values_row values_col default e0). Qed.
+Print Assumptions source_adjacency_values_core_is_model.
+
+Theorem model_adjacency_values_unfold m ad fb fd values values_row values_col default :
+  Format.get_adjacency_values m ad fb fd values values_row values_col default =
+  let fb' := match values_row, values_col with Format.VNone, Format.VNone => fb | _, _ => true end in
+  let ab := Format.get_adjacency m ad fb' fd in
+  match values_model (snd ab) (List.length (snd m)) (fst m) values values_row values_col default with
+  | Bfs.Err e => Bfs.Err e
+  | Bfs.Ok v => Bfs.Ok (fst ab, v, snd ab)
+  end.
+Proof. exact (get_adjacency_values_unfold m ad fb fd values values_row values_col default). Qed.
+Print Assumptions model_adjacency_values_unfold.
+
+Theorem source_values_untranslated_reviewed :
+  src_get_values_params = ["shape"; "values"; "default_value"] /\
+  src_stack_values_params = ["shape"; "values_row"; "values_col"; "default_value"] /\
+  src_adjacency_values_params = ["input_matrix"; "allow_directed"; "force_bipartite"; "force_directed"; "values";
+                                 "values_row"; "values_col"; "default_value"; "which"] /\
+  src_adjacency_values_before =
+    ["input_matrix = check_format(input_matrix)";
+     "if values_row is not None or values_col is not None:
+    force_bipartite = True";
+     "adjacency, bipartite = get_adjacency(input_matrix, allow_directed=allow_directed, force_bipartite=force_bipartite, force_directed=force_directed)"] /\
+  src_adjacency_values_after =
+    ["if which == 'probs':
+    if values.sum() > 0:
+        values /= values.sum()
+elif which == 'labels':
+    if len(set(values[values >= 0])) == 1:
+        values = np.arange(len(values))";
+     "return (adjacency, values, bipartite)"].
+Proof. exact values_untranslated_reviewed. Qed.
+Print Assumptions source_values_untranslated_reviewed.
+
+(** Non-vacuity: the generated statements run inside Coq on a 2 x 3 shape with dict seeds on the rows (given out of order) and
+    an array on the columns. *)
+Example c03_source_nonvacuous :
+  run_var src_stack_values [("shape", VList [vnat 2; vnat 3]);
+                            ("values_row", embVals (Format.VDict [(1, 5%Q); (0, 2%Q)]));
+                            ("values_col", embVals (Format.VArr [7%Q; 0%Q; 1%Q])); ("default_value", VNum (-1)%Q)] "return"
+    = POk (Some (VList (map VNum [2%Q; 5%Q; 7%Q; 0%Q; 1%Q]))) /\
+  run_var src_adjacency_values_core [("bipartite", VBool true); ("input_matrix.shape", VList [vnat 2; vnat 3]);
+                            ("values", PyImp.VNone); ("values_row", PyImp.VNone);
+                            ("values_col", embVals (Format.VDict [(2, 4%Q)])); ("default_value", VNum 0%Q)] "values"
+    = POk (Some (VList (map VNum [0%Q; 0%Q; 0%Q; 0%Q; 4%Q]))) /\
+  run_var src_get_values [("shape", VList [vnat 2]); ("values", embVals (Format.VDict [(3, 1%Q)])); ("default_value", VNum 0%Q)] "return"
+    = PErr PIndexError.
+Proof. repeat split; vm_compute; reflexivity. Qed.
